@@ -266,7 +266,9 @@ impl Seq {
         if d > settle_ms {
             self.w.advance(d - settle_ms).await;
         }
+        if std::env::var("DVDEBUG").is_ok() { self.steps.push(format!("DEBUG after w.advance now={}", self.now())); }
         self.after_step("Advance").await;
+        if std::env::var("DVDEBUG").is_ok() { self.steps.push(format!("DEBUG after after_step now={}", self.now())); }
     }
 
     /// Advances to the absolute virtual instant `t` (no-op if already past).
@@ -377,11 +379,16 @@ impl Seq {
 
     /// Moves everything the model and the status checks found into the report.
     pub fn flush(&mut self, rep: &mut EpReport) {
-        for f in self.m.found.drain(..) {
-            rep.viol(f.property, f.sig, f.detail);
-        }
-        for f in self.unexpected_status.drain(..) {
-            rep.viol(f.property, f.sig, f.detail);
+        // Once the model and the server have diverged, everything found later is a
+        // consequence of the first divergence: only the first finding is reported.
+        let mut all: Vec<Found> = self.unexpected_status.drain(..).collect();
+        all.extend(self.m.found.drain(..));
+        let n = all.len() as u64;
+        if let Some(f) = all.into_iter().next() {
+            if rep.violations.is_empty() {
+                rep.viol(f.property, f.sig, f.detail);
+            }
+            rep.add("followup_findings_suppressed", n - 1);
         }
         rep.add("in_window_steps", self.m.in_window_steps);
         rep.add("expiries_crossed", self.m.expiries_crossed);
